@@ -241,7 +241,15 @@ func (r *Runner) ApplyEnv(ev M, contents map[string][]byte) (bool, error) {
 		if !ok {
 			return true, fmt.Errorf("unknown content %v", ev["c"])
 		}
-		return true, os.WriteFile(p, data, 0o666)
+		if err := os.WriteFile(p, data, 0o666); err != nil {
+			return true, err
+		}
+		if old, _ := ev["old"].(bool); old {
+			// the file keeps an old modification time (cp -p, mv, extraction from an archive)
+			tm := time.Now().Add(-2 * time.Hour)
+			return true, os.Chtimes(p, tm, tm)
+		}
+		return true, nil
 	case "remove":
 		err := os.Remove(r.wtPath(ev["p"].(string)))
 		if os.IsNotExist(err) {
@@ -252,6 +260,16 @@ func (r *Runner) ApplyEnv(ev M, contents map[string][]byte) (bool, error) {
 		return true, os.RemoveAll(r.wtPath(ev["p"].(string)))
 	case "mkdir":
 		return true, os.MkdirAll(r.wtPath(ev["p"].(string)), 0o777)
+	case "cpdir":
+		// cp -r <p> <to>: two directories with identical contents (they share one tree id once committed)
+		src, dst := r.wtPath(ev["p"].(string)), r.wtPath(ev["to"].(string))
+		if fi, err := os.Stat(src); err != nil || !fi.IsDir() {
+			return true, nil
+		}
+		if _, err := os.Stat(dst); err == nil {
+			return true, nil
+		}
+		return true, copyTree(src, dst)
 	case "dfswap":
 		p := r.wtPath(ev["p"].(string))
 		data := contents[ev["c"].(string)]
